@@ -114,7 +114,7 @@ def cls_case(rng):
             doc = ""
         else:
             rng.choice(ps)[1][1] = "  " + text(1, 3)
-    return {"doc": doc, "params": ps, "outside": outside}
+    return {"doc": doc, "params": ps, "outside": outside, "fmt": rng.choice(["class", "pydantic"])}
 
 
 def cls_impl(c):
@@ -133,13 +133,18 @@ def cls_impl(c):
         params[n] = e
     ir = {"name": "K", "doc": c["doc"], "params": params, "returns": None, "type": "static"}
     with contextlib.redirect_stderr(io.StringIO()):
-        node = cdd.class_.emit.class_(copy.deepcopy(ir), class_name="K", word_wrap=False, emit_default_doc=False)
+        # pydantic = the class emitter with BaseModel as base / the class parser with infer_type: the same text format
+        import cdd.pydantic.emit
+        import cdd.pydantic.parse
+        emit_f = cdd.pydantic.emit.pydantic if c.get("fmt") == "pydantic" else cdd.class_.emit.class_
+        parse_f = cdd.pydantic.parse.pydantic if c.get("fmt") == "pydantic" else cdd.class_.parse.class_
+        node = emit_f(copy.deepcopy(ir), class_name="K", word_wrap=False, emit_default_doc=False)
         src = ast.unparse(ast.fix_missing_locations(node))
         node2 = ast.parse(src).body[0]
         docstring = ast.get_docstring(node2, clean=False)
         body = [[b.target.id, ast.unparse(b.annotation), None if b.value is None else ast.unparse(b.value)]
                 for b in node2.body if isinstance(b, ast.AnnAssign)]
-        back = cdd.class_.parse.class_(node2)
+        back = parse_f(node2)
     got = [back.get("doc"), [[k, [v.get("typ"), v.get("doc"), ("absent" if "default" not in v else repr(v["default"]))]] for k, v in back["params"].items()]]
     return src, docstring, body, got
 
